@@ -1,0 +1,17 @@
+//go:build verif
+
+package cache
+
+// VerifRunCleanupCycle runs one janitor cycle (expiry sweep, then size enforcement)
+// synchronously on the caller's goroutine. Verification builds only.
+func (c *MemoryCache[MetadataT]) VerifRunCleanupCycle() {
+	c.janitor.cleanExpiredEntries()
+	c.janitor.ensureCacheSize()
+}
+
+// VerifRunCleanupCycle runs one janitor cycle (expiry sweep, then size enforcement)
+// synchronously on the caller's goroutine. Verification builds only.
+func (c *FileCache[MetadataT]) VerifRunCleanupCycle() {
+	c.janitor.cleanExpiredEntries()
+	c.janitor.ensureCacheSize()
+}
